@@ -87,6 +87,7 @@ type Frame struct {
 	retSts  []*State
 	retVals [][]Value
 	named   map[string]*Cell
+	namedAll map[string][]*Cell // every variable of a name, in declaration order
 	edge    map[[2]int]*State
 	loopIdx map[*ssa.BasicBlock]int
 	siteOcc map[string]int
@@ -108,6 +109,12 @@ func (ex *Exec) note(format string, args ...interface{}) {
 func (ex *Exec) assume(pc, fact *Term) {
 	f := ex.ts.Implies(pc, fact)
 	if f.IsTrue() {
+		return
+	}
+	if ex.ts.HasFreeBound(f) {
+		// a side fact about a term under a quantifier of a specification
+		// (range of a loaded value, ...): it cannot be stated outside the
+		// quantifier; dropping an assumption is always sound
 		return
 	}
 	ex.assumes = append(ex.assumes, f)
@@ -526,7 +533,7 @@ func (ex *Exec) load(st *State, addr Value, typ types.Type) Value {
 	case Loc:
 		v := ex.loadLoc(st, p)
 		if tv, ok := v.(TV); ok {
-			ex.assumeRange(st.PC, tv.T, typ)
+			ex.assumeRange(ex.ts.True(), tv.T, typ) // typed memory: in range on every path
 			if isPointerLike(typ) {
 				ex.knownRef(st, tv.T)
 			}
@@ -539,7 +546,7 @@ func (ex *Exec) load(st *State, addr Value, typ types.Type) Value {
 		s := ex.tm.SortOf(typ)
 		arr := ex.heapGet(st, ex.tm.MemKey(typ), SArray(SInt, s))
 		t := ex.ts.Select(arr, p.T)
-		ex.assumeRange(st.PC, t, typ)
+		ex.assumeRange(ex.ts.True(), t, typ)
 		if isPointerLike(typ) {
 			ex.knownRef(st, t)
 		}
